@@ -324,6 +324,7 @@ func runC08(e *Engine, r *Report) {
 	ruleShrunkPredicate(e, r)
 	ruleSyncUnconditional(e, r)
 	ruleReadyToStream(e, r)
+	ruleOpenSetsOnDiskIndex(e, r)
 	ruleRestoreRegistersAll(e, r)
 }
 
